@@ -320,7 +320,7 @@ class LinCtx:
         carry the assembly interpreter saw dropped): is there an input that makes its quotient non-zero (small satisfiability queries on a fresh
         incremental-core solver)?  `mismatch(env)` is evaluated at each model; the first environment (name -> value) for which it is true is
         returned, else None.  An input found this way is a concrete counterexample in its own right."""
-        t0 = time.time()
+        t0 = time.process_time()
         hit = self.point_search(mismatch)
         if hit is not None:
             return hit
@@ -333,7 +333,7 @@ class LinCtx:
         cands = [q for (r, q) in self.wraps.values() if not q.is_const()] + [f for f in extra_forms if isinstance(f, LV) and not f.is_const()]
         for q in cands:
             for cond in ([self.z(q) >= 1] if q.lo >= 0 else [self.z(q) >= 1, self.z(q) <= -1]):
-                if time.time() - t0 > budget_s:
+                if time.process_time() - t0 > budget_s:
                     return None
                 s = z3.Solver() if realise else z3.SimpleSolver()      # linear case: the default tactic pipeline answers these small satisfiable queries poorly
                 s.set("timeout", per_query_ms)
@@ -355,7 +355,7 @@ class LinCtx:
         input that makes one truncation quotient / dropped carry non-zero.  Returns the first environment with mismatch(env), else None."""
         import random
         rnd = random.Random(seed)
-        t0 = time.time()
+        t0 = time.process_time()
         ins = [i for i, k in self.kind.items() if k == "in"]
         if not ins:
             return None
@@ -363,7 +363,7 @@ class LinCtx:
         cands = [f for f in extra_forms if isinstance(f, LV) and not f.is_const()] + [q for (r, q) in self.wraps.values() if not q.is_const()]
         pats = [0, 1, (1 << 64) - 1, 1 << 63, (1 << 63) - 1, (1 << 64) - 2]
         for trial in range(trials):
-            if time.time() - t0 > budget_s:
+            if time.process_time() - t0 > budget_s:
                 return None
             free = ins[trial % len(ins)]
             fixed = {}
@@ -377,7 +377,7 @@ class LinCtx:
                 if isinstance(k, tuple) and k[0] == "prod":
                     defs.append(self.zv[i] == self.z(k[1]) * self.z(k[2]))
             for q in cands[:24]:
-                if time.time() - t0 > budget_s:
+                if time.process_time() - t0 > budget_s:
                     return None
                 s = z3.Solver()
                 s.set("timeout", per_query_ms)
